@@ -59,6 +59,10 @@ def equation_fact(facts, r, s, digest, point, G):
 
 
 def run(ctx):
+    # no hidden state: what this property is about keeps nothing at module level between calls (memo tables keyed by less than
+    # the value depends on, caches of the outside world, counters) -- a verdict on one call must hold for every later call
+    from .. import rules as _rules
+    _rules.check_hidden_state(ctx, 'C02.10', ['bits.ecmath.verify', 'bits.utils.sig_verify', 'bits.utils.point', 'bits.utils.is_point'])
     R = ctx.R
     fv = ctx.fn("bits.ecmath.verify")
     ev = ctx.evaluator(opaque={SMUL, PADD, "bits.ecmath.point_is_on_curve"})
@@ -66,7 +70,8 @@ def run(ctx):
     r, sv, dg, pt = P("r", tm.INT), P("s", tm.INT), P("digest", tm.INT), P("point", tm.TUPLE)
     G = (c03.GX, c03.GY)
     # verification of a valid tuple never dies in a field helper's range check (e.g. reducing x(R) mod n with add_mod_p)
-    c03.check_operand_ranges(ctx, "C02.8", "bits.ecmath.verify", point_params=("point",), what="every tuple with r, s in [1, n-1] and a curve point")
+    c03.check_operand_ranges(ctx, "C02.8", "bits.ecmath.verify", point_params=("point",), what="every tuple with r, s in [1, n-1] and a curve point",
+                             pre=[tm.cmp("ge", P("r", tm.INT), 1), tm.cmp("lt", P("r", tm.INT), N), tm.cmp("ge", P("s", tm.INT), 1), tm.cmp("lt", P("s", tm.INT), N)])
     truthy = [e for e in s.returns() if not (e.value is False or e.value is None)]
     R.check("C02.1", "DOM", fv, "verify has a success exit", bool(truthy), "verify never reports success")
     for e in truthy:
@@ -98,6 +103,7 @@ def run(ctx):
 
     # ---- the DER layer sig_verify reads signatures through: every (r, s) the encoder can emit must decode (shared with C01)
     c01.check_der(ctx, "C02.9")
+    c01.check_sig_verify_flags(ctx, "C02.11")
     # ---- sig_verify
     fsv = ctx.fn("bits.utils.sig_verify")
     evs = ctx.evaluator(opaque={SMUL, PADD, "bits.ecmath.point_is_on_curve", "bits.pem.parse_asn1", "bits.ecmath.y_from_x"})
